@@ -3,7 +3,7 @@
    conditions and counters, matching assignment and declaration types, call arity and parameter
    types, sigils only on numeric variables, void only as an expression statement), independent
    of the checker's code; and the tables the checker's source is expected to contain. *)
-From TV Require Import Base.I32 Model.Ops Model.Expr Model.Typing.
+From TV Require Import Base.I32 Model.Ops Model.Expr Model.TypeCheck.
 Open Scope Z_scope.
 
 (* ---- operators ---- *)
@@ -228,7 +228,7 @@ Definition spec_irow (k : ikind) : irow :=
   | IK_Script | IK_Meta => I_Walk
   | IK_ConstVar => I_Check CF_constvar
   end.
-(* what ast::walk_stmt / ast::walk_item are transcribed as in Model/Typing.check_stmt *)
+(* what ast::walk_stmt / ast::walk_item are transcribed as in Model/TypeCheck.check_stmt *)
 Definition spec_walk_stmt (k : skind) : list wcall :=
   match k with
   | K_Item => [WC_item]
